@@ -128,3 +128,5 @@ func bothVerdicts(inv *invocation.Token, ld delegation.Loader) (error, error) {
 	e2 := inv.ExecutionAllowedWithArgsHook(ld, identityHook)
 	return e1, e2
 }
+
+func commandOf(s string) command.Command { return command.Command(s) }
